@@ -522,7 +522,17 @@ func (e *c06Env) sync() {
 func (e *c06Env) settled() bool {
 	for _, id := range e.order {
 		st := e.streams[id]
-		if st.aborted || st.rstSeen || st.dead() || !st.hdrDone || st.body == nil {
+		if st.aborted || st.rstSeen || !st.hdrDone || st.body == nil {
+			continue
+		}
+		if st.dead() {
+			// finished normally (nobody aborted it, no RST_STREAM seen): everything it was handed
+			// has been written, but donec closes in-process before the last frames have crossed
+			// the connection. Wait for them: a barrier PING sent into a connection the client is
+			// about to close (idle close) would reset it and lose them.
+			if st.recvd < st.released || !st.endSeen {
+				return false
+			}
 			continue
 		}
 		if st.released > st.recvd {
